@@ -108,9 +108,12 @@ func vcOp(ws []string) (string, bool) {
 		vw.dispatch(s, &ClientComMessage{Note: n})
 	case "timeout":
 		// the establishment timer of the topic fires
+		// (it can fire only while it is armed: from the invitation until the call is accepted or over)
 		if t := globals.hub.topicGet(s.uid.P2PName(vw.users[peer])); t != nil {
-			t.terminateCallInProgress(true)
-			vw.pump()
+			if t.callEstablishmentTimer.Stop() {
+				t.terminateCallInProgress(true)
+				vw.pump()
+			}
 		}
 	default:
 		return "", false
